@@ -205,6 +205,11 @@ class SFTPFile(BufferedFile):
         ):
             while len(self._reqs):
                 req = self._reqs.popleft()
+                if req not in self.sftp._expecting:
+                    # its status was already read (and dropped) while some
+                    # other request was waiting for its own response;
+                    # waiting for it again would block forever.
+                    continue
                 t, msg = self.sftp._read_response(req)
                 if t != CMD_STATUS:
                     raise SFTPError("Expected status")
